@@ -10,7 +10,7 @@ from sa.exc import CANCELLED
 from sa.flow import FnExit, Interp, TestAtom, call_of
 
 CLAIM = {
-    "text": "Decides, for the four stream receivers (blocking/asynchronous x copying/buffered) and the TCP client wrappers, the structure behind 'every complete packet once, then a sticky end-of-stream': the consumer is drained (consumer.next(None)) before the transport or the end-of-stream latch is touched; the latch is a dataclass field defaulting to False that is only ever stored True, only in receive(), only on the empty-read branch; every transport read happens with the latch known to be False on that path; every value read from the transport reaches consumer.next on every path and nothing else is ever fed; a packet taken from the consumer is returned on every path (None and falsy packets included); once the latch is set the only exit is ECONNABORTED and no packet is returned; the four siblings agree on this fact tuple; the client wrappers translate connection errors but never swallow them or run a raising call between the endpoint's return and their own. Also decided: (flow) in the asyncio protocol every change of the buffered-bytes level is followed on every normal path by the matching flow-control re-evaluation (resume after taking bytes out, pause after adding), so reading is never left paused; (buf) a caller-owned buffer registered with the event loop is withdrawn on every exit of the receive; (arms) no except arm of the converters / consumers / TLS transports is shadowed by an earlier arm that catches every class it names. The clients' receive iterators never leave while a packet returned by recv_packet() is still held; a 0-byte read of the ciphertext stream marks the incoming BIO EOF on every path; the read water marks, computed by constant propagation, lie within the receive buffer.",
+    "text": "Decides, for the four stream receivers (blocking/asynchronous x copying/buffered) and the TCP client wrappers, the structure behind 'every complete packet once, then a sticky end-of-stream': the consumer is drained (consumer.next(None)) before the transport or the end-of-stream latch is touched; the latch is a dataclass field defaulting to False that is only ever stored True, only in receive(), only on the empty-read branch; every transport read happens with the latch known to be False on that path; every value read from the transport reaches consumer.next on every path and nothing else is ever fed; a packet taken from the consumer is returned on every path (None and falsy packets included); once the latch is set the only exit is ECONNABORTED and no packet is returned; the four siblings agree on this fact tuple; the client wrappers translate connection errors but never swallow them or run a raising call between the endpoint's return and their own. Also decided: (flow) in the asyncio protocol every change of the buffered-bytes level is followed on every normal path by the matching flow-control re-evaluation (resume after taking bytes out, pause after adding), so reading is never left paused; (buf) a caller-owned buffer registered with the event loop is withdrawn on every exit of the receive; (arms) no except arm of the converters / consumers / TLS transports is shadowed by an earlier arm that catches every class it names. The clients' receive iterators never leave while a packet returned by recv_packet() is still held; a 0-byte read of the ciphertext stream marks the incoming BIO EOF on every path; the read water marks, computed by constant propagation, lie within the receive buffer. Round 4: eof_received() of the asyncio stream protocol returns True on every path outside the SSL case (the transport stays open while received packets are unread); the helper that takes the receive lock with a deadline releases it on every exit once acquired (acquire/release pairing typestate); in-place buffer compaction happens after the copy-out; a lent buffer is withdrawn in the callback.",
     "note": "Trusted: consumer.next delivers/raises StopIteration as specified (C01/C02 cover its internals structurally); annotations. Not decided: exactly-once for several packets inside one chunk (value level).",
     "technique": "typestate by abstract interpretation (drain-first, latch knowledge refined by branch tests, hold-until-fed), write-once/who-writes queries on the program database, sibling comparison of normalised fact tuples",
 }
@@ -396,6 +396,8 @@ def check_flow(eng, run):
     """Read flow control is paired: whoever takes bytes out of the protocol's internal buffer re-evaluates resume_reading() before
     returning, whoever adds bytes re-evaluates pause_reading(): otherwise a paused transport stays paused for ever (bytes the peer
     sent are never delivered and EOF is never seen) or a full buffer is handed to the event loop (connection aborted, data lost)."""
+    from sa.analyses.conserve import check_read_before_compaction
+    check_read_before_compaction(eng, run, "C03.flow", 1)
     n = 0
     for ci in eng.db.classes.values():
         pauser = resumer = None
@@ -501,10 +503,54 @@ def check_buf(eng, run):
     """a caller-owned receive buffer registered with the event loop is withdrawn on every exit of the receive (shared with C10.lend)"""
     from rules.c10 import check_lend
     check_lend(eng, run, rule="C03.buf", cancel_arm=False)
+    from rules.c10 import check_withdraw
+    check_withdraw(eng, run, rule="C03.buf")
+
+
+def check_half_close(eng, run):
+    """the asyncio stream protocol keeps the transport open when the peer half-closes: `eof_received()` returns True on every path,
+    except under the test of the flag that records an SSL transport (asyncio ignores the value there).  Returning False lets
+    asyncio close the transport; connection_lost() then discards the packets that are buffered but not yet read."""
+    n = 0
+    for fn in eng.db.all_functions():
+        if fn.name != "eof_received" or fn.cls is None or isinstance(fn.node, ast.Lambda):
+            continue
+        n += 1
+        # attributes whose value is derived from the transport's "sslcontext" / "ssl_object" extra
+        ssl_attrs = set()
+        for m in fn.cls.methods.values():
+            for st in own_nodes(m.node):
+                if isinstance(st, (ast.Assign, ast.AnnAssign)) and st.value is not None and any(isinstance(c, ast.Constant) and c.value in ("sslcontext", "ssl_object") for c in ast.walk(st.value)):
+                    for t in (st.targets if isinstance(st, ast.Assign) else [st.target]):
+                        if isinstance(t, ast.Attribute):
+                            ssl_attrs.add(t.attr)
+
+        def under_ssl_guard(ret):
+            for i in own_nodes(fn.node):
+                if isinstance(i, ast.If) and any(ret is x for b in i.body for x in ast.walk(b)):
+                    if any(isinstance(a, ast.Attribute) and a.attr in ssl_attrs for a in ast.walk(i.test)) and not any(isinstance(u, ast.UnaryOp) and isinstance(u.op, ast.Not) for u in ast.walk(i.test)):
+                        return True
+            return False
+
+        rets = [r for r in own_nodes(fn.node) if isinstance(r, ast.Return)]
+        bad = [r for r in rets if not (isinstance(r.value, ast.Constant) and r.value.value is True) and not under_ssl_guard(r)]
+        falls = not isinstance(fn.node.body[-1], (ast.Return, ast.Raise))
+        for r in bad[:1]:
+            run.finding("C03.eof", fn, r, "eof_received() can return something other than True outside the SSL case: asyncio then closes the transport on the peer's half-close and connection_lost() throws away the packets that were received but not read yet")
+        if falls and not bad:
+            run.finding("C03.eof", fn, fn.node, "eof_received() can fall off its end (returns None): asyncio closes the transport on the peer's half-close and buffered packets are discarded")
+        run.ob("C03.eof", f"{fn.short}:keeps-transport-open-on-half-close", not bad and not falls, returns=len(rets), ssl_flags=sorted(ssl_attrs))
+    run.floor("C03.eof eof_received implementations", n, 1)
 
 
 def run(eng, run):
+    from sa.anchors import verify as _verify_anchor_names
+    _verify_anchor_names(eng, run)
     run.not_decided += NOT_DECIDED
+    check_half_close(eng, run)
+    from rules import c12
+    from sa.report import RuleAlias
+    c12.check_lock_with_timeout(eng, RuleAlias(run, "C03.cli"))  # a receive lock that is never released: every later recv_packet() times out
     check_receivers(eng, run)
     check_clients(eng, run)
     check_flow(eng, run)
